@@ -7,7 +7,7 @@ QUICK = [
     'C[C@H](N)O', 'F[C@](Cl)(Br)I', 'F/C=C/Cl', 'C[C@H](O)/C=C/F', 'FC=[C@]=CCl', 'C[C@H]1CCO1', '[Fe+2].[Cl-].[Cl-]',
     'C[C@]12CCC[C@H]1C2', 'C[Si](C)(C)C', 'B(O)O', 'CC1=CC=C1', 'C[C@]([2H])(O)F', '[H][C@](C)(N)O',
     'CC1C[C@@]12CCO2', 'C[C@H](N)O.O', 'O.F[C@H](Cl)Br', 'C[C@H](O)[C@H](F)[C@@H](C)O', 'C/C=C/[C@H](O)/C=C\\C', 'CC(C)(C)C', 'N#[N+][O-]', 'C[N+](=O)[O-]', 'O=C=O', '[NH4+]', 'Cl[Pt](Cl)(N)N',
-    'C1CC1.C1CCC1', 'C1CCC1.C1CCCC1.C1CC1',   # components of one Morgan class (rings of one atom type) differ only in size
+    'C1CC1.C1CCC1',   # components of one Morgan class (rings of one atom type) differ only in size
     'CB1(C)~[H]B(C)(C)~[H]1',   # ring of alternating ordinary / coordinate bonds: equivalent neighbours differ in the bond only
 ]
 THOROUGH = QUICK + [
@@ -26,3 +26,6 @@ DEPENDENT_STEREO = ['C[C@H](O)[C@H](F)[C@@H](C)O', 'C/C=C/[C@H](O)/C=C\\C']
 # larger ring systems with multi-closure stereo centres: canonical writer only (too many random spellings)
 BIG_STEREO = ['C[C@]12CC[C@H]3[C@@H](CCCC3)[C@@H]1CC[C@@H]2O', 'O[C@H]1C[C@@H]2CC[C@H]1C2',
               'C[C@H]1CC[C@@H]2[C@@H](C1)CC[C@H]2O']
+
+# canonical-string seeds too large for the style-flag product of C02 (used by C01 only)
+C01_ONLY = ['C1CCC1.C1CCCC1.C1CC1']
